@@ -27,6 +27,7 @@ import hostrun
 import mir2
 import mirsmt
 import report
+import second
 from engine_g import Case
 from mirsmt import Unsupported
 from model import (Project, S, V, SUB, NULL, PLURAL, NUM)
@@ -460,7 +461,7 @@ def decide_kernel(mir, n, m_own, timeout_ms=30000):
         sol.add(st1.pc)
         sol.add(z3.Not(claim))
         t0 = time.time()
-        r = sol.check()
+        r = second.check(sol, 'C07 path query')
         res["solver_s"] += time.time() - t0
         res["solver_checks"] += 1
         if r == z3.sat:
@@ -477,7 +478,7 @@ def decide_kernel(mir, n, m_own, timeout_ms=30000):
         sol.add(z3.ULE(dt, 1))
         sol.add(z3.Not(z3.Or([z3.And(st1.pc) if st1.pc else z3.BoolVal(True) for st1, _ in outs])))
         res["solver_checks"] += 1
-        if sol.check() != z3.unsat:
+        if second.check(sol, 'C07 coverage query', True) != z3.unsat:
             res["status"] = "sat"
             res["model"] = {"note": "some input reaches no return"}
     if m.unwinding:
@@ -565,6 +566,9 @@ def run(tier, seed):
             print("VIOLATION property=C07 replay=%s" % path)
             print("  %s %s" % (b["case"], json.dumps({k: v for k, v in b.items() if k not in ("case", "project_dir")})[:300]))
     wall = time.time() - t0
+    so, so_problems = second.verdict()
+    for pr in so_problems:
+        inconclusive.append("second opinion: " + pr)
     report.write_evidence(prop, tier, seed, "model_checking", {
         "evaluations": sum(r["paths"] for r in runs) or 1, "distinct_nontrivial": max(2, len(runs)),
         "rule": "one symbolic execution of Locale::merge per (number of default keys, number of own keys); every MIR path is one evaluation; per path z3 checks the emitted warnings against the statement for all presence patterns and both kinds of default_to, and finally that the paths cover every input",
@@ -577,6 +581,7 @@ def run(tier, seed):
         "mir_calls_summarised": sorted({c for r in runs for c in r.get("calls", [])}),
         "concrete_stage": dict(stats, mismatches=len(bad)),
         "bounds": "one level of keys: 0..3 (thorough 4) keys in the default locale, each present or not in the merged locale, 0..2 (thorough 3) own keys each present or not, default_to Implicit or Explicit, the nested merge of each present key succeeds or fails (symbolic). Outside the solver: the recursion into nested groups (ParsedValue::merge creating / merging nested locales), plural merging, namespaces, which locales get Explicit (the `inherits` table), null values — the concrete stage runs generated projects with all of those through the real parser.",
+        "second_opinion": so,
         "inconclusive": inconclusive,
     }, wall, [
         "BTreeMap of the default keys: all present, iterated in key order; BTreeMap of the locale: presence of each key is a symbolic boolean; entry() is Vacant / Occupied accordingly, VacantEntry::insert makes the key present; keys() iterates the present keys in key order",
